@@ -3,6 +3,7 @@ package server
 import (
 	"errors"
 	"fmt"
+	"github.com/lab5e/lospan/pkg/verifgate"
 	"sync"
 
 	"github.com/lab5e/lospan/pkg/lg"
@@ -53,6 +54,9 @@ func NewFrameOutputBuffer() FrameOutputBuffer {
 // soon as possible.
 // BUG(stalehd): Does not keep track of the mac command length
 func (d *FrameOutputBuffer) AddMACCommand(deviceEUI protocol.EUI, cmd protocol.MACCommand) error {
+	if err := verifgate.Gate("AddMACCommand"); err != nil {
+		return err
+	}
 	d.mutex.Lock()
 	defer d.mutex.Unlock()
 
@@ -79,6 +83,7 @@ func (d *FrameOutputBuffer) AddMACCommand(deviceEUI protocol.EUI, cmd protocol.M
 // SetPayload sets (or overwrites) the existing payload. An error is returned
 // if the payload can't be set.
 func (d *FrameOutputBuffer) SetPayload(deviceEUI protocol.EUI, payload []byte, port uint8, ack bool) {
+	verifgate.Gate("SetPayload")
 	d.mutex.Lock()
 	defer d.mutex.Unlock()
 
@@ -100,6 +105,7 @@ func (d *FrameOutputBuffer) SetPayload(deviceEUI protocol.EUI, payload []byte, p
 
 // SetJoinAcceptPayload sets the JoinAccept payload that should be sent to the device.
 func (d *FrameOutputBuffer) SetJoinAcceptPayload(deviceEUI protocol.EUI, payload protocol.JoinAcceptPayload) {
+	verifgate.Gate("SetJoinAcceptPayload")
 	d.mutex.Lock()
 	defer d.mutex.Unlock()
 
@@ -121,6 +127,9 @@ func (d *FrameOutputBuffer) SetJoinAcceptPayload(deviceEUI protocol.EUI, payload
 // that this might not pull all of the data for the device.
 // BUG(stalehd): Uses fixed max length for payload
 func (d *FrameOutputBuffer) GetPHYPayloadForDevice(device *model.Device, context *FrameContext) (protocol.PHYPayload, error) {
+	if err := verifgate.Gate("GetPHYPayloadForDevice"); err != nil {
+		return protocol.PHYPayload{}, err
+	}
 	d.mutex.Lock()
 	defer d.mutex.Unlock()
 
@@ -213,6 +222,7 @@ func (d *FrameOutputBuffer) GetPHYPayloadForDevice(device *model.Device, context
 // a message will be sent to the device at the earliest opportunity, regardless
 // if there's payload or MAC frames to be sent.
 func (d *FrameOutputBuffer) SetMessageAckFlag(deviceEUI protocol.EUI, ackFlag bool) {
+	verifgate.Gate("SetMessageAckFlag")
 	d.mutex.Lock()
 	defer d.mutex.Unlock()
 
